@@ -106,7 +106,8 @@ fn gen_urdf(rng: &mut Rng) -> Gen {
     // names
     let explicit = rng.bool(0.3);
     let style = rng.usize(6);
-    let prefix = *rng.pick(&["", "${prefix}", "left_", "robot1_", "R_", "my-arm.", "kuka_", "left_arm_", "${prefix}arm_"]);
+    // (incl. non-ASCII letters whose lower-case form has another UTF-8 length: dotted capital I, Kelvin and Ohm signs)
+    let prefix = *rng.pick(&["", "${prefix}", "left_", "robot1_", "R_", "my-arm.", "kuka_", "left_arm_", "${prefix}arm_", "\u{130}_", "\u{212A}UKA_", "\u{2126}_", "Äußerer_", "БОТ_", "\u{130}\u{130}\u{212A}"]);
     let tcp_name = explicit && rng.bool(0.3);
     let names: [String; 6] = std::array::from_fn(|j| {
         if explicit {
@@ -158,22 +159,22 @@ fn gen_urdf(rng: &mut Rng) -> Gen {
                 (*rng.pick(&["      <limit effort=\"0\" velocity=\"10\"/>\n", "      <limit velocity=\"3.14\"/>\n", "      <limit effort=\"12\" velocity=\"${radians(360)}\"/>\n"])).to_string()
             }
             1 => {
-                let lo = -(rng.int(10, 360) as f64);
-                let hi = rng.int(10, 360) as f64;
+                let lo = -(rng.int(10, 720) as f64);
+                let hi = rng.int(10, 720) as f64;
                 from[j] = lo.to_radians();
                 to[j] = hi.to_radians();
                 format!("      <limit lower=\"${{radians({})}}\" upper=\"${{radians({})}}\" effort=\"0\" velocity=\"${{radians(360)}}\"/>\n", lo as i64, hi as i64)
             }
             2 => {
-                let lo = -(rng.int(100, 3600) as f64) / 10.0;
-                let hi = (rng.int(100, 3600) as f64) / 10.0;
+                let lo = -(rng.int(100, 7200) as f64) / 10.0;
+                let hi = (rng.int(100, 7200) as f64) / 10.0;
                 from[j] = lo.to_radians();
                 to[j] = hi.to_radians();
                 format!("      <limit lower=\"${{radians({:.1})}}\" upper=\"${{radians({:.1})}}\" effort=\"12.5\" velocity=\"3\"/>\n", lo, hi)
             }
             _ => {
-                let lo = -((rng.range(0.2, 6.28) * 1e4).round() / 1e4);
-                let hi = (rng.range(0.2, 6.28) * 1e4).round() / 1e4;
+                let lo = -((rng.range(0.2, 12.5) * 1e4).round() / 1e4);
+                let hi = (rng.range(0.2, 12.5) * 1e4).round() / 1e4;
                 from[j] = lo;
                 to[j] = hi;
                 format!("      <limit lower=\"{}\" upper=\"{}\" effort=\"0\" velocity=\"3.67\"/>\n", lo, hi)
@@ -326,6 +327,37 @@ fn extract(idx: u64, rng: &mut Rng, mon: &mut Mon) {
         mon.held();
         mon.nontrivial(crate::rng::hash_str(&g.text));
     }
+    // the solver built from the extraction judges angles by the generator's arcs (limited joints) and accepts
+    // everything on unlimited ones
+    {
+        let robot = p.to_robot(0.0, &[0.0; 6]);
+        if let Some(c) = robot.constraints() {
+            for _ in 0..6 {
+                let ang: [f64; 6] = std::array::from_fn(|_| rng.range(-2.0 * PI, 2.0 * PI));
+                let mut expect = true;
+                let mut conclusive = true;
+                for j in 0..6 {
+                    if g.limited[j] {
+                        let (v, d) = crate::refmodel::arc_contains(g.from[j], g.to[j], ang[j]);
+                        if v.is_none() || d < 1e-9 {
+                            conclusive = false;
+                        }
+                        expect &= v.unwrap_or(true);
+                    }
+                }
+                if !conclusive {
+                    continue;
+                }
+                mon.count("extract.solver_limit_verdicts");
+                if c.compliant(&ang) != expect {
+                    mon.violation(if expect { "extract:solver-rejects-angle-inside-the-limits" } else { "extract:solver-accepts-angle-outside-the-limits" }, "the solver built from the extraction does not judge angles by the limits of the description", detail(json!({"angles": jf(&ang), "expected": expect, "constraints_from": jf(&c.from), "constraints_to": jf(&c.to)})));
+                    break;
+                } else {
+                    mon.held();
+                }
+            }
+        }
+    }
     // a joint without <limit> is an unconstrained joint of the resulting solver
     if g.limited.iter().any(|l| !l) {
         let robot = p.to_robot(0.0, &[0.0; 6]);
@@ -372,7 +404,9 @@ fn errors(idx: u64, rng: &mut Rng, mon: &mut Mon) {
             // drop every declaration of one joint
             let j = rng.usize(6);
             // the name from the word 'joint' on: also removes the same joint of an identical second copy
-            let tail = match g.names[j].to_lowercase().rfind("joint") {
+            // (searched on the original string: lower-casing may change byte offsets of non-ASCII prefixes)
+            let pos = g.names[j].char_indices().map(|(i, _)| i).filter(|i| g.names[j][*i..].to_lowercase().starts_with("joint")).last();
+            let tail = match pos {
                 Some(pos) if !g.explicit => g.names[j][pos..].to_string(),
                 _ => g.names[j].clone(),
             };
